@@ -275,6 +275,22 @@ def run(ctx):
     r7 = c13.supported_and_default(ctx, "C15.R7", "the default the resolution ends in is the configured default locale",
                                    "`otherwise the default`: Locale::default() is the variant marked #[default] - the first of the list the configuration loader produced; a loader "
                                    "that leaves another locale first makes every visitor without cookie or matching language start in that locale")
+    # `the best match for the request's Accept-Language header`: on the server the header is turned into a list by leptos-use (third party):
+    # its locked source is read (py/depsrc.py) - it splits at `,` and cuts everything after `;`, i.e. the `q` weights never reach the
+    # negotiation, which takes list position as preference
+    try:
+        import depsrc
+        ver_, d_ = depsrc.crate_dir(ctx.repo, "leptos-use")
+        if d_ is not None:
+            src_ = open(d_ + "/src/use_locales.rs").read()
+            ssr_ = src_[src_.index('#[cfg(feature = "ssr")]'):] if '#[cfg(feature = "ssr")]' in src_ else src_
+            if "split(',')" in ssr_ and "split_once(';')" in ssr_ and not re.search(r"q\s*=|quality|weight|sort", ssr_):
+                r4.viol("R4:accept-language#q-weights", "leptos-use %s turns `Accept-Language` into a list by splitting at `,` and cutting each entry at `;`: the `q` weights are dropped and header position is "
+                        "taken as preference - `de;q=0.1,fr;q=0.9` resolves `de`, `de;q=0,fr` (de not acceptable) resolves `de`" % ver_, file="Cargo.lock")
+            else:
+                r4.inst("leptos-use %s: Accept-Language" % ver_, "the header list is ordered by weight (or parsed otherwise than the 0.15 split)")
+    except Exception:  # noqa: BLE001
+        pass
     # `parent context's locale`: the parent is the context of the *enclosing* provider - a sub-context is provided inside its own child
     # owner, so it is not what a sibling provider finds as its parent (the run_as_children clause of C16.R3, rules/c16.py)
     from rules import c16
